@@ -41,6 +41,7 @@ type Object struct {
 	Map    *MapData    // KHMap
 	Native interface{} // KNative
 	Err    *ErrData    // error objects created by stubs
+	Sym    *symNode    // symbolic type descriptor (C15)
 	Unseeded bool
 	Owned  bool        // C12: allocated by / handed to the operation under test
 	Tag    string      // provenance tag (input buffer, block buffer, bank...)
